@@ -64,11 +64,11 @@ try:
     last = [l for l in out.strip().splitlines() if 'passed' in l or 'failed' in l][-1:]
     meta['ran']['repo_tests_with_change'] = last[0] if last else out[-200:]
     tests_ok = rc == 0
-    shutil.copy(demo, mut / 'demo.py')
-    shutil.copy(demo, clean / 'demo.py')
+    shutil.copy(demo, mut / demo.name)      # (a demo may name itself in import strings: keep its file name)
+    shutil.copy(demo, clean / demo.name)
     # demos were written with the worktree path inside; run them with PYTHONPATH first so the copy wins
-    rc_m, out_m = run(['/venv/bin/python', 'demo.py'], mut, envm)
-    rc_c, out_c = run(['/venv/bin/python', 'demo.py'], clean, envc)
+    rc_m, out_m = run(['/venv/bin/python', demo.name], mut, envm)
+    rc_c, out_c = run(['/venv/bin/python', demo.name], clean, envc)
     meta['ran']['demo_with_change_exit'] = rc_m
     meta['ran']['demo_without_change_exit'] = rc_c
     meta['ran']['demo_with_change_tail'] = out_m.strip().splitlines()[-1][:300] if out_m.strip() else ''
@@ -90,6 +90,7 @@ try:
         dest.mkdir(parents=True, exist_ok=True)
         shutil.copy(patch, dest / 'patch.diff')
         shutil.copy(demo, dest / 'demo.py')
+        meta['demo_original_name'] = demo.name
         notes = wt / 'NOTES.md'
         if notes.exists():
             shutil.copy(notes, dest / 'NOTES.agent.md')
